@@ -43,6 +43,19 @@ class SArr(np.ndarray):
             value = _wrap_value(value)
         np.ndarray.__setitem__(self, key, value)
 
+    def tobytes(self, *a, **k):
+        """value-based bytes (raw bytes of an object array would be pointers): equal terms give equal bytes, so code that
+        keys a cache on array.tobytes() behaves on symbolic arrays as it does on floats"""
+        if self.dtype == object:
+            parts = []
+            for v in self.reshape(-1):
+                if _isinstance(v, SV):
+                    parts.append(repr(v.c) if not v.sym else v.t.sexpr())
+                else:
+                    parts.append(repr(v))
+            return ('|'.join(parts) + f'#{self.shape}').encode()
+        return np.ndarray.tobytes(self, *a, **k)
+
     def __float__(self):
         if self.dtype == object:
             raise TypeError('only 0-dimensional arrays can be converted to Python scalars') if self.ndim > 0 \
